@@ -535,6 +535,11 @@ class Interp:
     def e_Unary(self, n, env):
         v = self.eval(n["e"], env)
         if n["op"] == "*":
+            if v[0] == "slot":
+                cur = env.get(v[1])
+                if cur and cur[0] == "vec" and v[2] < len(cur[1]) and cur[1][v[2]][0] == "one":
+                    return cur[1][v[2]][1]
+                return ("unk", "slot read")
             return v
         if v[0] == "c" and n["op"] == "-" and isinstance(v[1], (int, float)):
             return C(-v[1])
@@ -626,6 +631,15 @@ class Interp:
     def assign(self, place, v, env):
         p = core.strip(place)
         if p.get("k") == "Path" and p.get("res") == "local":
+            tgt = env.get(p["lid"])
+            if isinstance(tgt, tuple) and tgt and tgt[0] == "slot":
+                # `*slot = v` (core.strip sees through the deref): write through to the array element
+                cur = env.get(tgt[1])
+                if cur and cur[0] == "vec" and tgt[2] < len(cur[1]):
+                    segs = list(cur[1])
+                    segs[tgt[2]] = ("one", v)
+                    env[tgt[1]] = ("vec", tuple(segs))
+                    return
             env[p["lid"]] = v
             return
         if p.get("k") == "Field":
@@ -635,6 +649,15 @@ class Interp:
                 new = ("st", cur[1], tuple((f, (v if f == p["f"] else x)) for f, x in cur[2]))
                 self.assign(base, new, env)
                 return
+        if p.get("k") == "Unary" and p.get("op") == "*":
+            tgt = self.eval(p["e"], env)
+            if tgt[0] == "slot":
+                cur = env.get(tgt[1])
+                if cur and cur[0] == "vec" and tgt[2] < len(cur[1]):
+                    segs = list(cur[1])
+                    segs[tgt[2]] = ("one", v)
+                    env[tgt[1]] = ("vec", tuple(segs))
+                    return
         if p.get("k") == "Index":
             base = core.strip(p["l"])
             # slice assignment blob[a..b] = ... handled by copy_from_slice prim
@@ -938,6 +961,21 @@ class Interp:
             return ev(0)
         if re.search(r"(::as_slice|::as_mut_slice|::as_str|::as_bytes|::to_vec|::into_bytes|::into_boxed_slice|::as_deref|::as_deref_mut|Option::<T>::as_ref|Option::<T>::as_mut|::copied|::cloned|::make_contiguous|::iter_mut|String::from_utf8_lossy)$", g) and len(arg_nodes) == 1:
             v = ev(0)
+            if name == "iter_mut" and v[0] == "vec":
+                # a small local array iterated mutably: hand out one *slot* per element so that `*slot = e` in an
+                # unrolled loop updates the array (`for (slot, tag) in arr.iter_mut().zip(&TAGS) { *slot = read(tag)? }`)
+                base = core.strip(arg_nodes[0])
+                while base.get("k") in ("AddrOf", "Unary"):
+                    base = core.strip(base["e"])
+                n_el = None
+                if len(v[1]) == 1 and v[1][0][0] == "fill" and v[1][0][1][0] == "c" and isinstance(v[1][0][1][1], int) and v[1][0][1][1] <= 64:
+                    n_el = v[1][0][1][1]
+                    v = ("vec", tuple(("one", v[1][0][2]) for _ in range(n_el)))
+                elif v[1] and all(sg[0] == "one" for sg in v[1]) and len(v[1]) <= 64:
+                    n_el = len(v[1])
+                if n_el is not None and base.get("k") == "Path" and base.get("res") == "local":
+                    env[base["lid"]] = v
+                    return ("stream", ("lit", n_el), ("oneof", tuple(("slot", base["lid"], i) for i in range(n_el))), ())
             if name in ("copied", "cloned", "iter_mut") and v[0] in ("vec", "stream"):
                 return self.to_stream(v) if name == "iter_mut" else v
             return v
@@ -996,6 +1034,9 @@ class Interp:
         if g.endswith("iterator::Iterator::zip"):
             a = self.to_stream(ev(0))
             b = self.to_stream(ev(1))
+            if a[2][0] == "oneof" and b[2][0] == "oneof" and not a[3] and not b[3] and len(a[2][1]) == len(b[2][1]):
+                # two literal sequences of equal length: zip element-wise (the loop over it is unrolled)
+                return ("stream", a[1], ("oneof", tuple(("tup", (x, y)) for x, y in zip(a[2][1], b[2][1]))), ())
             da, db = norm_dom(a[1]), norm_dom(b[1])
             if da != db:
                 self.notes.append(f"zip of different domains {term_str(da, 3)} / {term_str(db, 3)} at {core.loc(n)}")
